@@ -135,8 +135,10 @@ def main():
                 try:
                     while off < len(data):
                         off += os.write(fd, data[off:])
-                except OSError:
+                except OSError as e:
                     script[:] = []
+                    with open(os.path.join(log, '%d.writefail' % pid), 'a') as f:
+                        f.write('%s %d %d\n' % (ch, e.errno or 0, seq))
                 written[ch] += len(data)
                 wri[3] = seq + 1
                 wri[4] = time.monotonic() + pause / 1000.0
